@@ -401,6 +401,10 @@ type Conn struct {
 	// deadline has passed by the time the write is scheduled.
 	EnforceDeadline bool
 	Timeouts        int
+	// ForeignTimeouts counts the timed-out writes whose governing deadline was
+	// armed by another task than the one writing.
+	ForeignTimeouts int
+	wdeadlineBy     *kernel.Task
 	OnClose         func()
 }
 
@@ -430,10 +434,13 @@ func (c *Conn) Write(b []byte) (int, error) {
 			t.Yield("pre-write:" + c.Out.Name)
 		}
 		c.Out.mu.Lock()
-		dl := c.WDeadline
+		dl, by := c.WDeadline, c.wdeadlineBy
 		c.Out.mu.Unlock()
 		if !dl.IsZero() && !time.Now().Before(dl) {
 			c.Timeouts++
+			if by != c.Out.wtask() {
+				c.ForeignTimeouts++
+			}
 			return 0, ErrTimeout
 		}
 		return c.Out.writeNoPre(b)
@@ -480,6 +487,10 @@ func (c *Conn) SetWriteDeadline(t time.Time) error {
 	c.Out.mu.Lock()
 	c.Deadlines++
 	c.WDeadline = t
+	c.Out.mu.Unlock()
+	by := c.Out.wtask()
+	c.Out.mu.Lock()
+	c.wdeadlineBy = by
 	c.Out.mu.Unlock()
 	if c.YieldOnDeadline {
 		if tk := c.Out.wtask(); tk != nil {
